@@ -135,7 +135,7 @@ def run(rep, prog, tier):
     r5(rep, prog)
     rep.rule("C15-R1", "order is enforced in release builds: with debug assertions off, sstable::Writer::insert_key still contains a panic guard, controlled by a comparison with previous_key (common_prefix_len), that dominates the Ok exit; the fst builder's insert error is propagated")
     rep.rule("C15-R2", "the sstable version written by Writer::finish is accepted by SSTableIndex::open")
-    rep.not_decided += ["lookup / stream / merge results (values)", "the guard is vacuous for the first key of a block because previous_key is cleared at a block flush (value-level observation)"]
+    rep.not_decided += ["lookup / stream / merge results (values)", "the guard is vacuous for the first key of a block because previous_key is cleared at a block flush (value-level observation)", "the limit cut-off of file_slice_for_range over-approximates start ordinal + limit (an inequality between ordinals: seeded change c15d is not detected)"]
     from ..driver import program
     nd = program("nodebug")
     rep.extra["nodebug_config"] = nd.stats()
